@@ -7,6 +7,7 @@ C16.b the quantities the bounds are computed from (instruction count, discount, 
 C16.c the discount de-duplication level is the instruction's position
 C16.d the folding discount is counted once per expression
 C16.e store-selecting predicates cover MSTORE8
+C16.f upper-bound start values admit every realizing sequence
 """
 import ast
 
